@@ -274,7 +274,8 @@ impl Check for TermCheck {
             _ => *rng.pick(&[0, 0, 20]),
         };
         sc.set("hz", hz);
-        sc.set("bottom", (multi && fl != Flavor::C16 && rng.chance(1, 4)) as u64);
+        let force_bottom = std::env::var_os("VERIF_FORCE_BOTTOM").is_some();
+        sc.set("bottom", (multi && fl != Flavor::C16 && (force_bottom || rng.chance(1, 3))) as u64);
         sc.set("xcheck", rng.chance(1, 8) as u64);
         let special = rng.chance(1, 2);
         let w = w as usize;
